@@ -275,4 +275,26 @@ def _sweep_stage(ctx):
                                   label=f"one long preemption per line of {'/'.join(line)}: {label} ({cls}, {order} id first)")
 
 
-install(globals(), props=("C06",), cases=cases, nontrivial=nontrivial, classes=classes, extra_monitors=(mon_c06,), stages=(_enumerate, _window_stage, _sweep_stage))
+def _resubmission_faults(ctx):
+    """Fault enumeration over programs whose branches are resubmitted by the executor's timer thread inside the
+    invocation: every backend call - including the empty state-refresh calls issued from the timer thread - fails once."""
+    from .c03 import _S
+
+    retry = {"op": "step", "beh": {"kind": "fail_by_attempt", "k": 1, "err": "UserError", "v": 1}, "sem": "least", "retry": {"kind": "table", "max": 3, "delays": [1], "nonretry": []}}
+    tol = {"completion": {"min": None, "tol": 3, "pct": None}}
+    bases = [
+        ("parallel{retrying step | slow step}", [{"op": "parallel", "branches": [[retry], [_S(2, sleep=2.5)]], "cfg": tol}]),
+        ("parallel{wait 1; step | slow step}", [{"op": "parallel", "branches": [[{"op": "wait", "secs": 1}, _S(1)], [_S(2, sleep=2.5)]], "cfg": tol}]),
+        ("map[2]{wfcond poll twice} next to a slow step", [{"op": "parallel", "branches": [[{"op": "wfcond", "init": 0, "decisions": [["continue", 1], ["stop"]], "trans": "count"}], [_S(2, sleep=2.5)]], "cfg": tol}]),
+    ]
+    total = 0
+    for i, (label, body) in enumerate(bases):
+        if ctx.nshards > 1 and i % ctx.nshards != ctx.shard % ctx.nshards:
+            continue
+        base = {"prog": {"body": body}, "backend": {"response": "delta"}, "plan": {"crashes": [], "faults": []}, "sched": [{"mode": "seq"}], "line": [], "max_raises": 1}
+        total += WC.enumerate_faults(ctx, base, PROPS, nontrivial=nontrivial, classes=lambda r, c: ["fault-enumeration:timer-resubmission"] + classes(r, c),
+                                     extra_monitors=(mon_c06,), fault_classes=("server5xx", "client4xx"), max_inv=1, max_api=14, limit=120)
+    ctx.extra["resubmission_fault_points"] = total
+
+
+install(globals(), props=("C06",), cases=cases, nontrivial=nontrivial, classes=classes, extra_monitors=(mon_c06,), stages=(_enumerate, _window_stage, _resubmission_faults, _sweep_stage))
